@@ -35,6 +35,19 @@ pub fn resolve_res(
                     report,
                     ast_res.expr.span())?,
                 
+            // A failed assertion inside the expression is an
+            // error once guesses are no longer allowed
+            expr::Value::FailedConstraint(msg) =>
+            {
+                if ctx.is_last_iteration
+                {
+                    report.message(msg.clone());
+                    return Err(());
+                }
+
+                0
+            }
+
             _ => 0,
         }
     };
